@@ -103,7 +103,9 @@ def gen_workload(rng, n_lines, ncols=None, malformed=0.0, opts=None):
     if opts.get('rel_names') and len(names) >= 2 and rng.random() < opts['rel_names']:
         k = rng.randrange(1, 1 + max(1, len(names) // 3))
         for i in rng.sample(range(len(names)), k):
-            nm = names[i] + ' AND_REL ' + rng.choice(names)
+            # the real marker (with blanks) and near misses of it: the marker without blanks, the interaction marker, fragments
+            marker = rng.choice([' AND_REL ', ' AND_REL ', 'AND_REL', '_AND_REL_', ' AND_REL', 'AND_REL ', ' AND ', 'AND', ' and_rel '])
+            nm = names[i] + marker + rng.choice(names)
             if nm not in used:
                 used.add(nm)
                 names[i] = nm
